@@ -61,6 +61,11 @@ def run_op(RaggedArray, p, c):
             a = arr(c["data"], "int64").reshape(c["r"], c["c"])
         st = None if c["starts"] is None else arr(c["starts"], "int64")
         en = None if c["ends"] is None else arr(c["ends"], "int64")
+        if p.get("form") == "index":
+            # the indexing form of the same operation: x[starts:ends] with vectors as slice bounds
+            from npstructures.mixin import NPSArray
+            a = a.view(NPSArray) if src != "ragged" else a
+            return a[st:en], None
         return ragged_slice(a, st, en), None
     raise ValueError(op)
 
@@ -108,7 +113,7 @@ def sym(E, p, kf):
     if op == "rslice":
         K = len(c["lens"])
         # 1-D sources take one (start, end) pair per window: both vectors are part of the call there
-        pres = E.choose("pres", [(1, 1), (1, 0), (0, 1)] if p["src"] != "1d" else [(1, 1)])
+        pres = E.choose("pres", [(1, 1), (1, 0), (0, 1)] if (p["src"] != "1d" and p.get("form") != "index") else [(1, 1)])      # the indexing form takes both vectors
         c["starts"] = [E.int(f"s{i}", 0, p["L"]) for i in range(K)] if pres[0] else None
         c["ends"] = [E.int(f"e{i}", -p["L"], p["L"] + 1) for i in range(K)] if pres[1] else None
         for i in range(K):
@@ -312,7 +317,8 @@ def jobs(tier, seed):
     for x, y in (("ragged", "ragged"), ("ragged", "scalar")):      # a scalar x is not "of the operands' shape": outside the claim
         out.append(dict(base, op="where", x=x, y=y))
     out += [dict(base, op="subset"), dict(base, op="maskindex")]
-    out += [dict(base, op="rslice", src="ragged"), dict(base, op="rslice", src="1d"), dict(base, op="rslice", src="2d"),
+    out += [dict(base, op="rslice", src="2d", form="index"), dict(base, op="rslice", src="1d", form="index"),
+            dict(base, op="rslice", src="ragged"), dict(base, op="rslice", src="1d"), dict(base, op="rslice", src="2d"),
             dict(base, op="rslice", src="ragged", pre="rowrev", R=2 if q else 3), dict(base, op="rslice", src="ragged", pre="rowlist", R=2 if q else 3)]
     return [dict(h="C08.struct", p=p) for p in out]
 
